@@ -535,6 +535,11 @@ Theorem C08_glob_glob_commute :
       Ok (with_globs st (globs st ++ [row_of gm s1 p1 u1 m1; row_of gm s2 p2 u2 m2])).
 Proof. exact glob_glob_commute. Qed.
 
+(* The code fact behind group 5, read from the source on every run by statement-level translation
+   of every SQL statement that writes nglob: register_nglob deletes no existing row. *)
+Theorem C08_register_supersedes_nothing : register_pre_delete = [].
+Proof. exact register_supersedes_nothing. Qed.
+
 (* Whole life cycle of the rows (model/GlobRows.v; the writers of the table are enumerated from
    the source by the translator): a registration survives every operation sequence that contains
    no removal path of its step (Step.reset_for_rerun, deletion of the detached step node) ... *)
@@ -551,6 +556,11 @@ Theorem C08_registration_lost_only_by_removal :
     (forall r', In r' (rows (run_ops t os)) -> reg_of r' <> reg_of r) ->
     exists o, In o os /\ removes (r_step r) o = true.
 Proof. exact registration_lost_only_by_removal. Qed.
+
+(* the documented removal path does remove (Step.reset_for_rerun, translated: reset_deletes_rows) *)
+Theorem C08_reset_removes_rows :
+  forall t s r, In r (rows (apply_op t (OReset s))) -> r_step r <> s.
+Proof. exact reset_removes_rows. Qed.
 
 Theorem C08_registration_key_count_exact :
   forall os t s pat subs,
